@@ -54,7 +54,7 @@ def _schema_snapshot(schema):
 
 OPS = ("lst_append", "raw_append", "dct_set", "rawd_set", "ld_item_set", "sub_set", "sub_l2_append", "ct_set",
        "ct_names_append", "items1_append", "items1_item_set", "items1_tags_append", "dyn_add", "reset_then_append",
-       "load_tree", "reassign_then_append", "items2_from_items1", "dyn_load", "dyn_item_load", "dyn_dotted", "anyl_append")
+       "load_tree", "reassign_then_append", "items2_from_items1", "dyn_load", "dyn_item_load", "dyn_dotted", "anyl_append", "dyn_then_render")
 
 
 def _apply(c1: Config, op: str, x: int):
@@ -98,6 +98,11 @@ def _apply(c1: Config, op: str, x: int):
         c1.lst.append(x)
         c1.dct = c1.dct
         c1.dct["q"] = x
+    elif op == "dyn_then_render":
+        c1.extra_r = x
+        c1.dynitems[0].extra_in_item = x
+        c1.to_tree()
+        c1.dumps(format="json")
     elif op == "dyn_dotted":
         for key in ("newsec.port", "newsec"):
             try:
@@ -125,12 +130,12 @@ def _mk(first: str):
     @obligation(prop="C13", name="share_" + first, group="share", sites=("c2", "schema", "fresh"), encodes=ENC,
                 budget={"quick": 240, "thorough": 600},
                 what="two configurations of one schema (built before or after each other's mutations); operation "
-                     "%s then optionally one of 21 further operations on the first: the second configuration, the "
+                     "%s then optionally one of 22 further operations on the first: the second configuration, the "
                      "schema's declared defaults/field set/options and a configuration built afterwards are "
                      "unchanged" % first)
     def ob(second: int, c2_first: bool, x: int) -> bool:
         """
-        pre: -1 <= second < 21 and 1000 <= x <= 2000
+        pre: -1 <= second < 22 and 1000 <= x <= 2000
         post: _
         """
         schema = _schema()
@@ -147,7 +152,7 @@ def _mk(first: str):
             if second == i:
                 _apply(c1, OPS[i], x + 1)
         hold("c2", plain(c2) == snap2, lambda: "the other configuration changed: %r -> %r" % (snap2, plain(c2)))
-        hold("c2", "extra" not in c2 and "extra_loaded" not in c2 and "newsec" not in c2, "dynamic field leaked into the other configuration")
+        hold("c2", "extra" not in c2 and "extra_loaded" not in c2 and "newsec" not in c2 and "extra_r" not in c2, "dynamic field leaked into the other configuration")
         hold("schema", _schema_snapshot(schema) == snap_schema, "schema defaults / field set / options changed")
         c3 = schema()
         hold("fresh", plain(c3) == fresh0, lambda: "a configuration built afterwards differs: %r vs %r" % (plain(c3), fresh0))
